@@ -110,6 +110,9 @@ func c18Case(w *core.W, j int) {
 	r := g.R
 	alg := allAlgs[j%len(allAlgs)]
 	bits := algBits[alg][0]
+	if j%12 >= 6 {
+		bits = algBits[alg][len(algBits[alg])-1] // incl. the largest RSA modulus the library accepts
+	}
 	keyName := model.Name{[]byte("Sig0"), []byte("example")}
 	if j%5 == 1 {
 		keyName = model.Name{[]byte("upd[1]^"), []byte("k`eys{2}"), []byte("example")} // octets whose 0x20-partner is not a letter either
@@ -502,14 +505,64 @@ func kindClass(k string) string {
 	return k
 }
 
+// c18WindowBoundary: the validity window is inclusive at both ends. SIG.Verify reads the wall clock
+// itself, so a verdict is taken only when the clock showed the same second before and after the call
+// (then that second is the one Verify used); otherwise the attempt is repeated.
+func c18WindowBoundary(w *core.W, j int) {
+	alg := []uint8{dns.ED25519, dns.ECDSAP256SHA256}[j%2]
+	k, err := getKey(alg, algBits[alg][0], "edge.example.", 512, 3)
+	if err != nil {
+		w.Inconclusive("keygen:" + err.Error())
+		return
+	}
+	key := &dns.KEY{DNSKEY: *dns.Copy(k.Key).(*dns.DNSKEY)}
+	key.Hdr.Rrtype = dns.TypeKEY
+	m := new(dns.Msg)
+	m.SetUpdate("example.")
+	m.Id = uint16(j)
+	type win struct {
+		name   string
+		di, de int64 // inception and expiration relative to the current second
+		valid  bool
+	}
+	for _, c := range []win{{"expiration==now", -300, 0, true}, {"inception==now", 0, 300, true}, {"inception==expiration==now", 0, 0, true},
+		{"expiration==now-1", -300, -1, false}, {"inception==now+1", 1, 300, false}} {
+		decided := false
+		for try := 0; try < 6 && !decided; try++ {
+			t0 := time.Now().Unix()
+			s := &dns.SIG{RRSIG: dns.RRSIG{KeyTag: key.KeyTag(), SignerName: "edge.example.", Algorithm: alg, Inception: uint32(t0 + c.di), Expiration: uint32(t0 + c.de)}}
+			out, err := s.Sign(k.Priv, m.Copy())
+			if err != nil {
+				break
+			}
+			if time.Now().Unix() != t0 {
+				continue // signing took us into the next second: place the window again
+			}
+			verr := s.Verify(key, out)
+			if time.Now().Unix() != t0 {
+				continue
+			}
+			decided = true
+			w.Eval(1)
+			w.Count("window_boundary_checks", 1)
+			if (verr == nil) != c.valid {
+				w.Violation("C18/window-boundary/"+c.name, fmt.Sprintf("window [%d, %d] checked during second %d: Verify returned %v, the window is inclusive (valid=%v)", t0+c.di, t0+c.de, t0, verr, c.valid), map[string]any{"alg": algName(alg)})
+			}
+		}
+		if !decided {
+			w.Count("window_boundary_undecided", 1)
+		}
+	}
+}
+
 func init() {
-	plan, run := sections(section{"messages", tiered(180, 6000), c18Case})
+	plan, run := sections(section{"messages", tiered(180, 6000), c18Case}, section{"window-boundary", tiered(8, 100), c18WindowBoundary})
 	core.Register(&core.Monitor{
 		ID: "C18", Level: "fault_enumeration", Plan: plan, Run: run, Terminates: true, CaseTimeout: 300e9,
 		Rule: "messages {header-only update, heavily compressible, 254..512 additional records, pool names, all registry types} x Compress on/off x RSASHA1/256/512, ECDSA P-256/P-384, Ed25519; oracle = independent RFC 2931 verification (model walk + Go crypto): Sign must succeed, output = packed message || SIG with ARCOUNT+1, verifies independently and with Verify (original and re-decoded SIG); " +
 			"every single-bit flip of the message part and the SIG RDATA (signed messages <= 220 octets; 256 sampled bits incl. the whole header above), other key, a KEY of every other algorithm (with and without matching tag), KEYs with truncated / extended / empty / non-base64 public keys, other signer name (incl. one differing by 0x20 in a non-letter), signed sizes of exactly 65534/65535/65536 octets, windows entirely in the past/future and empty windows with expiration before inception (>= 1 h from the real clock), a second message signed with the same SIG value, every truncation point >= 12 (<= 400 octets; ~300 sampled above), 60 structure-aware mutations; Verify==nil implies the model accepts; no panic; " +
 			"non-trivial = distinct signed message",
-		Assumptions: []string{"SIG.Verify reads the wall clock: windows are placed at least one hour from it, the exact boundary second is not decided", "bits of the SIG RR's own owner/type/class/TTL/RDLENGTH are outside the statement ('the message or the SIG RDATA')"},
+		Assumptions: []string{"SIG.Verify reads the wall clock: windows are placed at least one hour from it, except in the window-boundary section, where a verdict on now==inception / now==expiration is taken only if the clock showed the same second before and after the call", "bits of the SIG RR's own owner/type/class/TTL/RDLENGTH are outside the statement ('the message or the SIG RDATA')"},
 		MinObserved: []string{"signed", "alterations_rejected", "exhaustive_bitflip_messages", "exhaustive_truncation_messages", "truncations", "window_checks", "key_alterations"},
 	})
 }
